@@ -86,6 +86,17 @@ impl<'a> Ctx<'a> {
         let s = serde_json::to_string(t).unwrap();
         self.log_bytes(s.as_bytes());
     }
+    /// "terminates promptly": one API call that used more than three seconds of CPU. The class says
+    /// whether the probe in beff-core attributes the time to the branching emptiness decision of
+    /// the semantic engine (open known finding KF-C04-26) or not. Returns true for a slow call.
+    fn slow_call(&mut self, who: &str, cpu_ms: u64, probe: (u64, u64), op_index: usize) -> bool {
+        if cpu_ms <= SLOW_CALL_CPU_MS {
+            return false;
+        }
+        let class = if session::probe_says_exponential(probe) { "exponential-emptiness-decision:slow-build" } else { "slow-build:one-call-used-more-than-3s-cpu" };
+        self.violate("C04", class.into(), json!({"who": who, "cpu_ms": cpu_ms, "emptiness_steps": probe.0, "largest_number_of_negated_atoms": probe.1}), op_index);
+        true
+    }
     fn violate(&mut self, property: &str, class: String, detail: serde_json::Value, op_index: usize) {
         // known finding by exact class?
         if let Some(k) = self.opts.open_class(property, &class) {
@@ -440,10 +451,13 @@ fn execute_history(run: &Run, opts: &ExecOpts) -> Outcome {
                         let fr = fresh_process(&fs_now, &entry, &run.project.settings, &v);
                         cx.log_triple(&fr.first);
                         cx.out.max_call_cpu_ms = cx.out.max_call_cpu_ms.max(fr.max_call_cpu_ms);
-                        if fr.max_call_cpu_ms > SLOW_CALL_CPU_MS {
-                            cx.violate("C04", "slow-build:one-call-used-more-than-3s-cpu".into(), json!({"who": "fresh", "cpu_ms": fr.max_call_cpu_ms}), i);
-                        }
+                        let slow = cx.slow_call("fresh", fr.max_call_cpu_ms, fr.max_call_probe, i);
                         fresh.push(fr);
+                        if slow {
+                            // one build of this file system took seconds: the others would too
+                            cx.out.stats.probe("run_ended_by_slow_build");
+                            break 'ops;
+                        }
                     }
                     let reach: BTreeSet<String> = fresh[0].resolved_to.iter().cloned().collect();
                     check_c04(&mut cx, &fresh[0].first, Some((&fs_now, &reach)), "fresh", i);
@@ -519,10 +533,12 @@ fn execute_history(run: &Run, opts: &ExecOpts) -> Outcome {
         }
         // "terminates promptly": CPU time of one API call (thread clock, so load does not count).
         // A build of these projects takes 0.1-20 ms; three seconds is a different complexity class.
+        let probe = session::take_max_call_probe();
         let cpu = session::take_max_call_cpu_ms();
         cx.out.max_call_cpu_ms = cx.out.max_call_cpu_ms.max(cpu);
-        if cpu > SLOW_CALL_CPU_MS {
-            cx.violate("C04", "slow-build:one-call-used-more-than-3s-cpu".into(), json!({"who": "session", "cpu_ms": cpu, "op": short_op(op)}), i);
+        if cx.slow_call("session", cpu, probe, i) {
+            cx.out.stats.probe("run_ended_by_slow_build");
+            break 'ops;
         }
         if dead {
             cx.out.stats.probe("run_ended_by_session_panic");
@@ -687,8 +703,10 @@ fn execute_c10(run: &Run, opts: &ExecOpts) -> Outcome {
         let fr = fresh_process(&fs, entry, &run.project.settings, v);
         cx.log_triple(&fr.first);
         cx.out.max_call_cpu_ms = cx.out.max_call_cpu_ms.max(fr.max_call_cpu_ms);
-        if fr.max_call_cpu_ms > SLOW_CALL_CPU_MS {
-            cx.violate("C04", "slow-build:one-call-used-more-than-3s-cpu".into(), json!({"who": "fresh", "cpu_ms": fr.max_call_cpu_ms}), i);
+        if cx.slow_call("fresh", fr.max_call_cpu_ms, fr.max_call_probe, i) {
+            cx.out.stats.probe("run_ended_by_slow_build");
+            results.push(fr);
+            break;
         }
         if !v.preregister.is_empty() {
             cx.out.stats.fire("preregistration_order");
